@@ -25,6 +25,8 @@ var validTemplates = []string{
 	"send [USD 10] (\n source = @world\n destination = { 50.00000000000000000000000000000000000000000000000000000000000000% to @d remaining to @e }\n)",
 	"vars {\n account $acc1\n asset $ass1\n}\nsave [$ass1 *] from $acc1\nsend [USD 100] (\n source = { $acc1 allowing unbounded overdraft }\n destination = @d\n)\nsend [USD 5] (\n source = @world\n destination = @e\n)",
 	"save [USD *] from @a\nset_tx_meta(\"k\", 1)\nsend [USD 5] (\n source = @world\n destination = @e\n)\nsend [USD *] (\n source = @a\n destination = @e\n)\nsend [USD 5] (\n source = @b allowing unbounded overdraft\n destination = @e\n)",
+	"vars {\n portion $por1\n portion $por2\n}\nsend [USD 10] (\n source = { $por1 from @a $por2 from @b 1/2 from { 1/2 from @c 1/2 from @d } }\n destination = { $por1 to @d 50% to { 1/4 to @c 3/4 to @d } $por2 to @e }\n)",
+	"vars {\n monetary $mon1 = balance(@fees, USD)\n account $acc1 = meta(@config, \"acc\")\n monetary $mon2 = balance($acc1, USD)\n}\nsend $mon1 (\n source = @world\n destination = $acc1\n)\nsend $mon2 (\n source = @world\n destination = @d\n)",
 	// valid by the static rules, but with warnings: none of them may be of error severity
 	"vars {\n number $num1\n}\nsend [USD 1] (\n source = @a\n destination = @d\n)",
 	"send [USD 1] (\n source = { 1/2 from @a 1/2 from @b remaining from @c }\n destination = { 100% to @d remaining kept }\n)",
